@@ -10,6 +10,8 @@ import (
 	"os"
 	"runtime/debug"
 	"sort"
+	"strconv"
+	"time"
 
 	"verif/sim/core"
 	"verif/sim/props"
@@ -82,6 +84,7 @@ func main() {
 		props.L3ExpMain(os.Args[2])
 		return
 	}
+	core.PinMain() // seam S7: ordinary library calls all run on the main thread (see core/thread.go)
 	prop := flag.String("prop", "", "property id")
 	tier := flag.String("tier", "quick", "quick|thorough")
 	seed := flag.Uint64("seed", 1, "VERIF_SEED")
@@ -256,6 +259,9 @@ func doReplay(p core.Prop, path string) {
 }
 
 func doShrink(p core.Prop, path, out string) {
+	if v, err := strconv.Atoi(os.Getenv("VERIF_SHRINK_SECONDS")); err == nil && v > 0 {
+		core.ShrinkTime = time.Duration(v) * time.Second
+	}
 	rf, sc := loadReplay(p, path)
 	res := p.Execute(sc, false)
 	if res.Violation == nil || res.Violation.Signature(p.ID()) != rf.Signature {
